@@ -10,5 +10,6 @@ CONSTANTS
   SpawnUnderLock = FALSE
   MaxCrash = 0
   RecheckAfterWait = TRUE
+  WakeAfterResize = TRUE
 INVARIANT IdsGrow
 INVARIANT NeverBroken
